@@ -242,6 +242,11 @@ func (g *Gen) genC11(n int) error {
 	}
 	for i := 0; i < n; i++ {
 		g.emit("note case %d", i)
+		if i%16 == 5 {
+			g.concurrentMergesOfMerged()
+			g.st("case")
+			continue
+		}
 		if i == 2 {
 			// several doc-value and posting chunks, two private visit states interleaved
 			g.bigFrozenCase(1026)
@@ -374,6 +379,25 @@ func (g *Gen) genC17(n int) error {
 		g.ndocs[m] = g.ndocs[o] + g.ndocs[s2] - dropCount(d1) - dropCount(d2)
 		g.dumpIndex(m)
 		g.dumpStored(m)
+		g.emit("footer %s", mf)
+		// success means a complete file whatever shape the merge has: one opened input without
+		// deletions, one built input, the default chunk mode (public entry point) and others
+		for _, one := range []string{o, s2} {
+			for _, dr := range []string{"nil", "-", g.randDrops(g.ndocs[one])} {
+				if g.chance(0.5) {
+					g.emit("cfg chunkmode=1026")
+				}
+				mf1 := g.fresh("f")
+				g.emit("merge %s segs=%s drops=%s", mf1, one, dr)
+				g.emit("footer %s", mf1)
+				m1 := g.fresh("m")
+				g.emit("open %s %s", m1, mf1)
+				g.emit("q header %s", m1)
+				g.emit("q count %s", m1)
+				g.emit("close %s", m1)
+				g.emit("cfg chunkmode=%d", g.curMode)
+			}
+		}
 		g.emit("close %s", m)
 		g.emit("close %s", o)
 		g.st("case")
@@ -576,6 +600,24 @@ func (g *Gen) genC20(n int) error {
 		g.emit("ref close %s", o)
 		g.emit("ref mapped %s", o)
 	}
+	// the first lookups of a thesaurus made by several holders at once, then every reference dropped
+	if ths := sortedFieldNames(g.univ[s].Thes); len(ths) > 0 {
+		for c := 0; c < g.tierN(30, 150); c++ {
+			g.emit("note case firstthes%d", c)
+			o := g.fresh("o")
+			g.emit("open %s %s", o, f)
+			g.alias(o, s)
+			k := 4 + g.r.Intn(8)
+			for j := 0; j < k-1; j++ {
+				g.emit("ref addref %s", o)
+			}
+			g.emit("par %d ordered=1", k)
+			g.emit("q thesterms %s %s probe=-", o, ths[c%len(ths)])
+			g.emit("ref decref %s", o)
+			g.emit("endpar")
+			g.emit("ref mapped %s", o)
+		}
+	}
 	// opened segments as inputs of a merge: the merge neither keeps nor drops a reference of its inputs
 	fcopy := g.fresh("f") // a second file with the same content (mappings are counted per path)
 	g.emit("persist %s %s", s, fcopy)
@@ -627,4 +669,53 @@ func (g *Gen) genC20(n int) error {
 	g.emit("q count %s", s)
 	g.dumpIndex(s)
 	return nil
+}
+
+// concurrentMergesOfMerged: two merged segments (whose single-document terms are stored in the
+// dictionary itself) holding the same terms under different field lengths, merged by many goroutines
+// at once; every output must be the same.
+func (g *Gen) concurrentMergesOfMerged() {
+	g.emit("cfg chunkmode=1026")
+	var ms []string
+	for k := 0; k < 2; k++ {
+		b := &BatchSpec{Name: g.fresh("b")}
+		for d := 0; d < 3; d++ {
+			id := []byte(fmt.Sprintf("%s-%d", b.Name, d))
+			doc := DocSpec{ID: id, Plain: true}
+			doc.Fields = append(doc.Fields, FieldSpec{Kind: "fld", Name: "_id", Typ: 't', Stored: true, Len: 1, Val: id, Toks: []TokSpec{{Term: id, Freq: 1}}})
+			// one document per term, frequency 1, no locations; the field length differs per segment
+			doc.Fields = append(doc.Fields, FieldSpec{Kind: "fld", Name: "kw", Typ: 't', Len: 3 + 40*k + 7*d,
+				Toks: []TokSpec{{Term: []byte(fmt.Sprintf("solo%d", d)), Freq: 1}}})
+			b.Docs = append(b.Docs, doc)
+		}
+		g.emitBatch(b)
+		s := g.fresh("s")
+		g.emit("build %s %s", s, b.Name)
+		g.newBuilt(s, b)
+		f := g.fresh("f")
+		g.emit("merge %s segs=%s drops=nil", f, s)
+		m := g.fresh("m")
+		g.emit("open %s %s", m, f)
+		g.alias(m, s)
+		ms = append(ms, m)
+	}
+	pf := g.fresh("pf")
+	g.emit("par %d rounds=%d", 6+g.r.Intn(6), g.tierN(10, 30))
+	g.emit("merge %s segs=%s drops=nil|nil digest=1", pf, strList(ms))
+	g.emit("q post %s kw %s ex=nil fl=111 ops=N,N", ms[0], hx([]byte("solo1")))
+	g.emit("merge %s segs=%s drops=nil|0 digest=1", pf+"b", strList(ms))
+	g.emit("endpar")
+	ff := g.fresh("f")
+	g.emit("merge %s segs=%s drops=nil|nil", ff, strList(ms))
+	mm := g.fresh("m")
+	g.emit("open %s %s", mm, ff)
+	for d := 0; d < 3; d++ {
+		g.emit("q post %s kw %s ex=nil fl=111 ops=N,N,N", mm, hx([]byte(fmt.Sprintf("solo%d", d))))
+	}
+	g.emit("close %s", mm)
+	for _, m := range ms {
+		g.emit("close %s", m)
+	}
+	g.emit("cfg chunkmode=%d", g.curMode)
+	g.st("concurrent-merges")
 }
